@@ -143,7 +143,7 @@ mod dtrait {
         Val::new(format!("{name}({a})[{}]", parts.join(",")))
     }
 
-    #[unimock(api=DMock, unmock_with=[real_r0, _, real_u2(b, a), real_u3, _, _, _, _, _, _, real_mm, _, _, _])]
+    #[unimock(api=DMock, unmock_with=[real_r0, _, real_u2(b, a), real_u3(self, b, a), _, _, _, _, _, _, real_mm, _, _, _])]
     pub trait D {
         fn r0(&self, a: u8) -> Val;
         fn r1(&self, a: u8) -> Val;
@@ -196,8 +196,9 @@ mod dtrait {
         user_panic_if_armed(1, "user:real");
         Val::new(format!("real12({x},{y})"))
     }
-    /// recursion through the mock: depth a
-    pub fn real_u3(d: &impl D, a: u8, b: u8) -> Val {
+    /// recursion through the mock: depth a.  Registered as `real_u3(self, b, a)`: explicit parameter expressions that
+    /// start with the mock itself and list the inputs in another order than the declaration
+    pub fn real_u3(d: &impl D, b: u8, a: u8) -> Val {
         user_panic_if_armed(1, "user:real");
         if a == 0 {
             Val::new(format!("base({b})"))
